@@ -23,7 +23,9 @@ ASSUMPTIONS = ["finite-difference oracle of a converged SCF: defects below ~1e-6
                "pyscf's SCF, integral derivatives and density-fitting gradients are trusted"]
 DELTA = 1e-3
 TOL_FULL = 2e-6          # grid_response = True (measured floor 5e-8)
-TOL_FIXED = {0: 2e-3, 1: 6e-4, 2: 3e-4, 3: 1.5e-4}   # grid_response = False: fixed-grid error bound per level
+TOL_FIXED = {0: 5e-3, 1: 2e-3, 2: 8e-4, 3: 4e-4}   # grid_response = False: fixed-grid error bound per level (the largest
+#   value observed on the unchanged tree is 8.4e-4 at level 1 (vk-gga, H2O, thorough tier seed 2); the first calibration,
+#   6e-4, came from the quick tier only and raised a false alarm there)
 
 
 def gen_cases(tier, seed):
